@@ -11,7 +11,7 @@ CLAIM = {
  "C03": "Lean theorems over the model of lexer+parser: THEOREM A — for every byte string the scanner never slices out of range, every NextToken consumes a byte unless the scan is over, the token stream ends in one constant EOF token, and the parser model reads exactly that unbounded stream; THEOREM B — for every token array ending in EOF (hence every source text) the parser model returns a program and an error list: its recursion budget is never exhausted (outOfFuel, the stand-in for a hang / unbounded recursion, is unreachable) because every cycle of the 20 mutually recursive parse functions consumes a token. The model is tied to /repo by the regenerated tables (ParseFns, Keywords, CharClasses, Precedences) and by exhaustive/random differential runs of the real lexer and parser against the compiled model (kind projection: OK/ERR vs PANIC/HANG).",
  "C04": "Lean theorems: for EVERY operator and pair of operand values, every (container × index) read and every (container × index × value) write, the model of the evaluator's dispatch yields a value or an error, never a crash site (case analysis over all value constructors by a compositional NoCrash calculus). Partial: struct/method/func values and the built-in helpers' own panics are decided by the exhaustive oracle matrices only.",
  "C05": "Lean theorems over the generated tolerance facts (tolerated operators and sites are exactly the licensed ones, guarded by the *ErrUnknownIdentifier assertion) and over the evaluator model: a non-tolerated operand/condition/element/statement error is the result of the enclosing construct and of compile, with the cause chain kept and the output dropped.",
- "C06": "Lean theorems over the TRANSLATED precedence table and operator tables (documented order, registration, each operator's meaning per operand type, division by zero, type mismatch, short-circuit) and THEOREM C — the Pratt round trip on the parser model: every expression tree over atoms and registered binary operators, printed with the minimal parentheses that the precedence table and LEFT associativity require, is parsed back to exactly that tree (any depth, any operator mix), with grouping corollaries (equal levels nest left, tighter operators first, right-nested trees need parentheses). Partial: prefix operators / call / index inside the round trip and the evaluator-wide equality with the reference evaluator are tied by exhaustive correspondence and the oracle; bool-left coercion is a known finding.",
+ "C06": "Lean theorems over the TRANSLATED precedence table and operator tables (documented order, registration, each operator's meaning per operand type, division by zero, type mismatch, short-circuit) and THEOREM C — the Pratt round trip on the parser model: every expression tree over atoms, registered binary operators and prefix operators (! -), printed with the minimal parentheses that the precedence table and LEFT associativity require, is parsed back to exactly that tree (any depth, any operator mix), with grouping corollaries (equal levels nest left, tighter operators first, right-nested trees need parentheses). Partial: call / index inside the round trip and the evaluator-wide equality with the reference evaluator are tied by exhaustive correspondence and the oracle; bool-left coercion is a known finding.",
  "C07": "Lean theorems: isTruthy (generated from compiler.go) equals the property's falsy list on every value; !, if, else-if use it with the unknown-identifier-as-nil rule; for chains of ANY length the block of the first truthy condition is the result and later conditions do not occur in it (induction over the else-if list).",
  "C08": "Lean theorems over the loop models: per-element step for normal / continue / break results (break stops, continue keeps the partial output and goes on, elements in list order), block folding of control objects, the counter iterator's running count, and the parser restoring the enclosing loop state. Partial: the unrolling equivalence over whole programs is decided by the oracle.",
  "C09": "Lean theorems: every scoping construct runs its body under withCtx on a fresh child context and the caller's context is current again afterwards (on success and on error); writes go to the current frame only; with C10_isolation a write in a child is invisible to ancestors and siblings.",
